@@ -151,3 +151,20 @@ PROPS['C14'] = {'level': 'exploration', 'quick': [('merge:concurrent', 3000)], '
     'rule': 'seeded runs: 1-2 writers ingesting/flushing, a merger calling Merge repeatedly, 1-3 readers issuing match-all queries whose MetaStore iteration, opens and reads are gated, '
             'SimMeta or the real MemoryMetaStore, eager or lazy tombstones, coarse and fine schedules; non-trivial = a query finished with nil error; distinct = distinct decision sequences',
     'assumptions': MERGE_ASSUME}
+
+FS_ASSUME = ['simos models POSIX semantics relevant to the store: atomic rename, open handles survive unlink, data durable only after fsync(file), directory entries durable only after fsync(dir); '
+             'power loss keeps the durable view plus an order-preserving prefix or arbitrary subset of un-fsynced directory operations and none/all/prefix/zero-filled un-fsynced file data']
+PROPS['C15'] = {'level': 'fault_enumeration', 'exhaustive': False,
+    'quick': [('fs:crash', 400)], 'thorough': [('fs:crash', 20000)],
+    'rule': 'per sampled engine history over the real FileSystemDataStore (both stores) on simos (ingest, flush, failed flush under injected os errors, merge): at EVERY quiescent point at which the '
+            'file system changed (each simos call is its own scheduler step) the process-crash image is recovered with a fresh store+engine, plus 2 sampled power-loss images; '
+            'crash points are enumerated exhaustively per history, power-loss images are sampled; non-trivial = more than 3 images recovered; distinct = distinct decision sequences',
+    'assumptions': FS_ASSUME}
+PROPS['C16'] = {'level': 'exploration', 'quick': [('fs:spec', 4000)], 'thorough': [('fs:spec', 200000)],
+    'rule': 'seeded call sequences on the real FileSystemDataStore over simos: 1-4 concurrent writers x 2-8 scripts (CreateFile with forced name collisions against committed files, reservations and '
+            'orphaned .tmp files; chunked Write of random / valid-bloom / empty payloads; Close, Abort, Abort after Close, double Close, Close after Abort, abandoned writers; TombstoneFile; OpenFile), '
+            'os-call faults in a third of the runs; reference model compared with the directory and the directory scan at every quiescent point; non-trivial = more than one file created',
+    'assumptions': FS_ASSUME}
+PROPS['C14']['quick'] = [('merge:concurrent', 2500), ('fs:conc', 800)]
+PROPS['C14']['thorough'] = [('merge:concurrent', 120000), ('fs:conc', 40000)]
+PROPS['C14']['rule'] += '; plus the same workload with the real FileSystemDataStore as DataStore and MetaStore over simos (directory scan, opens and reads gated)'
